@@ -10,6 +10,7 @@ import (
 	"os"
 	"path"
 	"path/filepath"
+	"sort"
 	"strings"
 	"sync"
 	"syscall"
@@ -289,83 +290,57 @@ func (l *localFS) KeysPrefix(_ context.Context, token, prefix, delimiter string,
 	defer l.exclusive.Unlock()
 
 	noRoot := !strings.HasPrefix(prefix, "/")
-	prefix = path.Clean("/" + prefix)
+	if noRoot {
+		prefix = "/" + prefix
+	}
 
-	// we cache the result for the duration of the fetch loop: during this period, localfs updates are not seen
-	search, ok := l.glob[prefix]
-	if !ok {
-		// NOTE: Glob is not workable, fall back to Walk
-		matches := make([]string, 0, 50)
-		err := afero.Walk(l.fs, path.Dir(prefix), func(pth string, info os.FileInfo, err error) error {
-			if info.IsDir() || err != nil {
-				return nil
-			}
-			if strings.HasPrefix(pth, prefix) {
-				if delimiter != "" && len(pth) > len(prefix) {
-					if cut := strings.Index(pth[len(prefix):], delimiter); cut > -1 {
-						pth = pth[0 : len(prefix)+cut+1]
-					}
-				}
-				if noRoot {
-					pth = strings.TrimPrefix(pth, "/")
-				}
-				matches = append(matches, pth)
-			}
+	// NOTE: Glob is not workable, fall back to Walk, starting from the deepest directory designated by the prefix.
+	// The prefix is matched as is (e.g. "a/" does not match "a-b/x"): it is a prefix on keys, not a path.
+	matches := make([]string, 0, 50)
+	err := afero.Walk(l.fs, path.Dir(prefix), func(pth string, info os.FileInfo, err error) error {
+		if err != nil || info == nil || info.IsDir() {
 			return nil
-		})
-		if err != nil {
-			return nil, "", err
 		}
-		if delimiter != "" {
-			// dedupe truncated matches
-			deduped := make([]string, 0, len(matches))
-			for _, match := range matches {
-				dupe := false
-				for _, lookup := range deduped {
-					if match == lookup {
-						dupe = true
-						break
-					}
-				}
-				if !dupe {
-					deduped = append(deduped, match)
+		if !strings.HasPrefix(pth, "/") {
+			pth = "/" + pth
+		}
+		if strings.HasPrefix(pth, prefix) {
+			if delimiter != "" && len(pth) > len(prefix) {
+				if cut := strings.Index(pth[len(prefix):], delimiter); cut > -1 {
+					pth = pth[0 : len(prefix)+cut+len(delimiter)]
 				}
 			}
-			matches = deduped
+			if noRoot {
+				pth = strings.TrimPrefix(pth, "/")
+			}
+			matches = append(matches, pth)
 		}
-		l.glob[prefix], search = matches, matches
+		return nil
+	})
+	if err != nil {
+		return nil, "", err
 	}
 
-	var (
-		start, end int
-		next       string
-	)
-
-	if token == "" {
-		start = 0
-	} else {
-		found := false
-		for i, lookup := range search {
-			if token != lookup {
-				continue
-			}
-			found = true
-			start = i
-			break
-		}
-		if !found {
-			delete(l.glob, prefix)
-			return []string{}, "", nil
+	// keys come in lexicographic order, each once (a directory walk yields neither)
+	sort.Strings(matches)
+	search := matches[:0]
+	for i, match := range matches {
+		if i == 0 || match != matches[i-1] {
+			search = append(search, match)
 		}
 	}
 
+	// the page token is the first key of the page
+	start := 0
+	if token != "" {
+		start = sort.SearchStrings(search, token)
+	}
+
+	end := len(search)
+	next := ""
 	if len(search) > start+count {
 		next = search[start+count]
 		end = start + count
-	} else {
-		next = ""
-		end = len(search)
-		delete(l.glob, prefix)
 	}
 
 	return search[start:end], next, nil
